@@ -107,6 +107,8 @@ def validate(sdir):
             res["existing_tests_tail"] = out[-1500:]
         res["touched_pkgs"] = pk
     print(json.dumps(res, indent=1))
+    res["repo_head"] = run(["git", "-C", REPO, "rev-parse", "--short", "HEAD"], "/")[1].strip()
+    json.dump(res, open(os.path.join(sdir, "validation.json"), "w"), indent=1)
     ok = (res["demo_without_patch"] == "pass" and res["demo_with_patch"] == "fail" and res["build"] == "ok"
           and res["existing_tests_touched_pkgs"] == "pass")
     print("VALID" if ok else "INVALID")
@@ -124,6 +126,7 @@ def check(sdir, ids):
         env = genv()
         env["VERIF_REPO"] = wt
         allc = True
+        results = {}
         for pid in ids:
             rc, out = run([os.path.join(VERIF, "check"), pid, "--tier", os.environ.get("SEED_TIER", "quick")], VERIF,
                           env=env, timeout=3600)
@@ -133,8 +136,16 @@ def check(sdir, ids):
                 kind = "caught-nfi" if all("no-failing-input-found" in v for v in viol) else "caught-with-replay"
             print("%s: rc=%d %s" % (pid, rc, kind))
             print("\n".join("   " + l for l in out.strip().split("\n")[-8:]))
+            results[pid] = dict(result=kind, rc=rc, violation_lines=viol[:6],
+                                tier=os.environ.get("SEED_TIER", "quick"))
             if kind == "MISSED":
                 allc = False
+        rp = os.path.join(sdir, "check_result.json")
+        old = json.load(open(rp)) if os.path.exists(rp) else {}
+        old.update(results)
+        old["_repo_head"] = run(["git", "-C", REPO, "rev-parse", "--short", "HEAD"], "/")[1].strip()
+        old["_verif_head"] = run(["git", "-C", VERIF, "rev-parse", "--short", "HEAD"], "/")[1].strip()
+        json.dump(old, open(rp, "w"), indent=1)
     return 0 if allc else 1
 
 
